@@ -51,6 +51,9 @@ EXTRA_DOCS = [
     "@preamble{ spaced }\n@comment{ spaced comment }\n@a{k, f = {  padded  }, g = \"  q  \"}",
     "@a{k, f = {l1\nl2},\n g = {a\n\n b}}",
     "@a{k, a = {1}}@b{j, b = {2}}@comment{c}@string{s = {v}}@preamble{p}",
+    "@\u0130x{k, t = {dotted capital I in the entry type}}",
+    "@a{k, \u0130x = {1}, stra\xdfe = {2}, \ufb01 = {3}}",
+    "@a{k\\ , t = {key ends in a backslash}}\n@comment{text ends in a backslash\\ }\n",
 ]
 
 
@@ -166,9 +169,15 @@ def check_doc(text, exp, fspecs, acc):
         c1, c2 = content(l1), content(l2)
         if c1 != c2:
             kinds = [b[0] for b in c2]
+            import re as _re
+
+            cause = None
+            for b in c1:
+                if b[0] == "Entry" and not _re.fullmatch(r"\w*", b[1]):
+                    cause = "entry_type_lowercased_is_not_a_word"  # only U+0130: its lower() holds a combining mark
             what = "failed_block_after_rewrite" if any(k not in ("Entry", "String", "Preamble", "ExplicitComment", "ImplicitComment") for k in kinds) else ("block_count" if len(c1) != len(c2) else "block_content")
             acc.violation(
-                {"oracle": "content_preserved", "what": what},
+                {"oracle": "content_preserved", "what": what} if cause is None else {"oracle": "content_preserved", "cause": cause},
                 {"case": case, "observed": c2, "expected": c1, "written": w1},
                 size=len(text),
             )
